@@ -102,6 +102,7 @@ type VC struct {
 	usedContracts map[string]bool
 	usedLemmas    []*Lemma
 	proved   map[string][]string
+	heapAlloc map[string]string // heap array version -> allocation watermark when it was created
 	gkinds   []guardKind
 	gkDone   bool
 	trace    []string
@@ -265,7 +266,13 @@ func (vc *VC) heapSet(name, sort, term string) {
 		vc.fail("specification expression writes to the heap (%s)", name)
 	}
 	vc.heapSort[name] = sort
-	vc.st.Heap[name] = vc.def(sort, term)
+	t := vc.def(sort, term)
+	vc.st.Heap[name] = t
+	// every reference stored in this version of the array exists by now
+	if vc.heapAlloc == nil {
+		vc.heapAlloc = map[string]string{}
+	}
+	vc.heapAlloc[t] = vc.st.Alloc
 }
 
 func objHeapName(tk string, leaf int) string  { return fmt.Sprintf("O:%s#%d", tk, leaf) }
@@ -308,6 +315,7 @@ func (vc *VC) load(lv *LVal) SV {
 	n := len(vc.eng.layoutOf(lv.Typ).L)
 	out := SV{L: make([]string, n)}
 	tl := vc.eng.layoutOf(lv.Typ).L
+	bound := ""
 	for j := 0; j < n; j++ {
 		name, sort := vc.heapOf(lv, j)
 		h := vc.heapGet(name, sort)
@@ -319,6 +327,20 @@ func (vc *VC) load(lv *LVal) SV {
 			t = sel(t, a)
 		}
 		out.L[j] = vc.def(tl[j].Sort, t)
+		if tl[j].Kind == kRef && vc.pure == 0 {
+			b := "alloc0"
+			if strings.HasSuffix(h, "@0|") || strings.HasSuffix(h, "@0") {
+				b = "alloc0"
+			} else if a, ok := vc.heapAlloc[h]; ok {
+				b = a
+			} else {
+				b = vc.st.Alloc
+			}
+			if bound == "" {
+				bound = b
+			}
+			vc.assume(fmt.Sprintf("(<= %s %s)", out.L[j], b))
+		}
 	}
 	vc.typeFacts(lv.Typ, out)
 	return out
@@ -471,6 +493,8 @@ func (vc *VC) havocLoc(l Loc) {
 				vc.heapSet(name, sort, sto(h, l.Ref, sto(sel(h, l.Ref), l.Idx, vc.fresh(ls, "hv"))))
 			}
 		}
+	case 'C':
+		vc.havocChan(l)
 	case 'M':
 		mi := vc.eng.mapInfos[l.TK]
 		if mi == nil {
